@@ -68,7 +68,7 @@ def exec_job(job):
             if not np.array_equal(back, A0):
                 raise core.MachineryError("1/(1/L) != L for the lengths of this job")
             return bct.weight_conversion(rc.as_variant(W, "float64", lay), "lengths")
-        return rc.as_variant(A0, arg_dtype(name, dt), lay)
+        return rc.as_variant(A0, job.get("raw_dtype") or arg_dtype(name, dt), lay)
     arg(fn)
     with np.errstate(all="ignore"):
         try:
@@ -211,6 +211,24 @@ def build_jobs(ctx):
             jobs += jobs_for(with_lengths(rng, A, und, rng.choice(LENS)), src + "-len", False,
                              rc.draw_variant(rng, rc.DT_COUNT, p_plain=0.4),
                              via=rng.choice(["", "", "", "weights"]))
+    # lengths of mixed magnitude held in float32 (seed round 7): every single length (1, 2, 3, 2^24) is
+    # exact in float32, sums such as 2^24 + 1 are not - routes that differ by one unit tie when a path length
+    # is accumulated in the argument's type.  The unchanged routines accumulate in float64.
+    for k in range(60 if ctx.quick else 600):
+        A, und = random_graph(rng)
+        L = with_lengths(rng, A, und, [1, 2, 3, 2 ** 24, 2 ** 24])
+        if k % 2:
+            # two groups of nodes far apart: connections inside a group are short (1..3), every connection
+            # between the groups is long (2^24) - all routes from one group to the other carry exactly one
+            # long connection and differ by a few units
+            L = with_lengths(rng, A, und, [1, 2, 3])
+            side = [rng.random() < 0.5 for _ in range(len(L))]
+            for a in range(len(L)):
+                for b in range(len(L)):
+                    if L[a, b] and side[a] != side[b]:
+                        L[a, b] = 2 ** 24
+        for j in jobs_for(L, "random-mixed-f32", False):
+            jobs.append(dict(j, raw_dtype="float32", dtype="float32", draw="float32"))
     return jobs
 
 
